@@ -162,8 +162,8 @@ def runFixed (m : Mgr) (es : List Ev) : Mgr := es.foldl stepFixed m
     visitor.Manager against.  `updateAll` / `tryStart` = the code as it is; switch to
     `updateAllFixed` / `tryStartFixed` when the corresponding repair lands in /repo (the two
     KNOWN_FINDINGS entries C19-visitor-dup-name-restarts / C19-visitor-started-after-close then go). -/
-def activeUpdateAll (m : Mgr) (cfgs : List VCfg) : Mgr := updateAll m cfgs
-def activeTryStart (m : Mgr) (n : Nat) : Mgr := tryStart m n
+def activeUpdateAll (m : Mgr) (cfgs : List VCfg) : Mgr := updateAllFixed m cfgs
+def activeTryStart (m : Mgr) (n : Nat) : Mgr := tryStartFixed m n
 def activePass (m : Mgr) (order : List Nat) : Mgr := order.foldl activeTryStart m
 
 def Ev.isUpd : Ev → Bool
